@@ -1,0 +1,30 @@
+//go:build verif
+
+package retransmission
+
+// Thin exports for the C17 verification driver. No behaviour of their own.
+
+// VerifHandlerCount returns the number of handlers currently registered in the
+// ticker (lets the driver wait for the asynchronous onTick registration done by
+// ScheduleRetransmissions and for the removal of cancelled handlers).
+func (t *Ticker) VerifHandlerCount() int {
+	t.handlersMutex.Lock()
+	defer t.handlersMutex.Unlock()
+	return len(t.handlers)
+}
+
+// VerifNewBackoffStrategy returns a BackoffStrategy with the given counters.
+func VerifNewBackoffStrategy(tickCounter, delay, retransmitTick uint64) *BackoffStrategy {
+	return &BackoffStrategy{
+		tickCounter:    tickCounter,
+		delay:          delay,
+		retransmitTick: retransmitTick,
+	}
+}
+
+// VerifState returns the strategy's counters.
+func (bos *BackoffStrategy) VerifState() (tickCounter, delay, retransmitTick uint64) {
+	bos.mutex.Lock()
+	defer bos.mutex.Unlock()
+	return bos.tickCounter, bos.delay, bos.retransmitTick
+}
